@@ -30,9 +30,55 @@ _Thread_local struct dispatch_tsd __dispatch_tsd;
 #define H_SELF ((uint64_t)(uint32_t)__dispatch_tsd.tid)
 void libdispatch_tsd_init(void) { __CPROVER_assert(0, "VA:tsd_already_initialised"); }
 
-/* ---- the lane under test */
+/* rely parameters (see dq_rely_pre.h); inactive unless the harness sets H_rely_ptr */
+const volatile void *H_rely_ptr; unsigned long long H_rely_minw;
+#define H_RELY_HOLDING_WIDTH(k) do { H_rely_ptr = &H_lane.dq_state; H_rely_minw = (DISPATCH_QUEUE_WIDTH_FULL - H_lane.dq_width) + (k); } while (0)
+/* ---- the lane under test (object) */
 struct dispatch_lane_s H_lane;
 #define H_DQ (&H_lane)
+/* ---- priority/override bookkeeping stubs (no effect on dq_state; trusted) */
+#ifndef DQ_NO_PRI_STUBS
+static inline void _dispatch_set_basepri_override_qos(dispatch_qos_t qos) { (void)qos; }
+static inline dispatch_qos_t _dispatch_get_basepri_override_qos_floor(void) { return ND(dispatch_qos_t) & 7; }
+static inline void _dispatch_wqthread_override_start(mach_port_t thread, dispatch_qos_t qos) { (void)thread; (void)qos; }
+#endif
+/* ---- reference-count stubs: each call is ONE logged event (the real retain/release
+ * arithmetic is under contract in C17); enabled with #define DQ_STUB_REFS */
+#ifdef DQ_STUB_REFS
+static inline void _dispatch_retain(dispatch_object_t dou) { __verif_event(EV_RETAIN, 0, dou._do, 1, 0); }
+static inline void _dispatch_retain_2(dispatch_object_t dou) { __verif_event(EV_RETAIN, 0, dou._do, 2, 0); }
+static inline void _dispatch_retain_2_unsafe(dispatch_object_t dou) { __verif_event(EV_RETAIN, 0, dou._do, 2, 0); }
+static inline void _dispatch_release(dispatch_object_t dou) { __verif_event(EV_RELEASE, 0, dou._do, 1, 0); }
+static inline void _dispatch_release_2(dispatch_object_t dou) { __verif_event(EV_RELEASE, 0, dou._do, 2, 0); }
+static inline void _dispatch_release_tailcall(dispatch_object_t dou) { __verif_event(EV_RELEASE, 0, dou._do, 1, 0); }
+static inline void _dispatch_release_2_tailcall(dispatch_object_t dou) { __verif_event(EV_RELEASE, 0, dou._do, 2, 0); }
+static inline void _dispatch_release_2_no_dispose(dispatch_object_t dou) { __verif_event(EV_RELEASE, 0, dou._do, 2, 0); }
+static inline void _dispatch_release_no_dispose(dispatch_object_t dou) { __verif_event(EV_RELEASE, 0, dou._do, 1, 0); }
+#endif
+/* ---- a target queue whose vtable entries are logging stubs (dx_push / dx_wakeup call-outs) */
+#ifdef DQ_STUB_TARGET
+struct dispatch_lane_s H_target;
+static void h_tq_push(dispatch_queue_class_t dq, dispatch_object_t dou, dispatch_qos_t qos)
+{ __verif_event(EV_PUSH, 0, dq._dq, (unsigned long long)(uintptr_t)dou._do, qos); }
+static void h_tq_wakeup(dispatch_queue_class_t dq, dispatch_qos_t qos, dispatch_wakeup_flags_t flags)
+{ __verif_event(EV_WAKEUP, 0, dq._dq, flags, qos); }
+#ifndef H_LANE_TYPE
+#define H_LANE_TYPE DISPATCH_QUEUE_CONCURRENT_TYPE
+#endif
+static const struct dispatch_lane_vtable_s H_vtable = {
+	._os_obj_vtable = { .do_type = H_LANE_TYPE, .dq_push = h_tq_push, .dq_wakeup = h_tq_wakeup },
+};
+static inline void h_setup_target(void)
+{
+	H_target.do_vtable = &H_vtable;
+	H_lane.do_vtable = &H_vtable;
+	H_lane.do_targetq = (dispatch_queue_t)&H_target;
+}
+#endif
+/* last log entry helpers */
+#define LAST (__verif_n - 1)
+
+/* ---- the lane under test */
 static inline void h_setup_lane(void)
 {
 	VERIF_GHOST_RESET();
